@@ -265,3 +265,32 @@ def w5(ctx):
             v = canon(c["value"])
             ok = order.le(const(0), v) and order.le(v, cap)
             yield Ob(key_of("C17-W5", b.path, "narrowing-cast", i + 1), ok, "`%s as u32` %s" % (short(v, 70), "is bounded by dominating guards (0 <= v <= cap)" if ok else "is NOT bounded: values >= 2^32 are truncated before the clamp"), ctx.loc(c))
+
+
+@rule("C17-Cl4", "C17", 6, "after clear() (and after a rewind) the handles allocated before still exist and are dropped later - the documented `good practice` of clear() "
+      "does exactly that: dealloc must not count or link an extent that is not below the cursor (otherwise discarded() of a cleared arena is not 0, or the free "
+      "list points above the cursor and the bump allocator and the list hand out the same bytes): every discard / insert effect of dealloc is dominated by "
+      "offset + size <= cursor", also=("C01", "C10"))
+def cl4(ctx):
+    from order import atoms_deep
+    OFFp, SZp = ("param", 1, "offset"), ("param", 2, "size")
+    for fl in FLAVOURS:
+        b = ctx.facts.one(r"^<%s::Arena as allocator::Allocator>::dealloc$" % fl)
+        ev, res = ctx.eval(b, no_inline=(r"_dealloc$", r"increase_discarded$"))
+        effs = [e for e in res.log if e["kind"] == "call" and not e["chain"] and re.search(r"(optimistic|pessimistic)_dealloc$|increase_discarded$", e["callee"])]
+        for e in effs:
+            fs = set(canon(f) for f in ctx.facts_of(ev, e))
+            cands = set()
+            for f in fs:
+                if f[0] == "cmp":
+                    for t in (f[2], f[3]):
+                        for a in atoms_deep(t):
+                            if "allocated" in show(a):
+                                cands.add(a)
+            o = Order(fs)
+            ok = any(o.le(add(OFFp, SZp), c) for c in cands)
+            role = re.search(r"(optimistic_dealloc|pessimistic_dealloc|increase_discarded)$", e["callee"]).group(1)
+            yield Ob(key_of("C17-Cl4", b.path, "below-cursor:" + role), ok,
+                     "%s::dealloc: %s %s" % (fl, role, "only under offset + size <= cursor" if ok else
+                                             "is reached for an extent above the cursor (a handle dropped after clear() / rewind)"), ctx.loc(e))
+        yield Ob(key_of("C17-Cl4", b.path, "effects"), len(effs) == 3, "%d discard / insert effect(s) in %s::dealloc" % (len(effs), fl), b.loc())
